@@ -8,6 +8,7 @@ import (
 	"errors"
 	"io"
 	"log"
+	"strings"
 
 	"github.com/fabiolb/fabio/registry/consul"
 	"github.com/hashicorp/consul/api"
@@ -66,6 +67,9 @@ var (
 
 func genPassing(r *hx.Rand, i int) interface{} {
 	in := passIn{Prefix: "urlprefix-", Status: pAccept[r.Intn(len(pAccept))], Strict: r.Chance(1, 2)}
+	if r.Chance(1, 6) {
+		in.Prefix = "fab-"
+	}
 	nn := 1 + r.Intn(len(pNodes))
 	ns := 1 + r.Intn(len(pSIDs))
 	n := 1 + r.Intn(40)
@@ -112,18 +116,24 @@ func genPassing(r *hx.Rand, i int) interface{} {
 			c.Name = "svc-" + c.SID
 			key := c.Node + "\x00" + c.SID
 			if _, ok := tagOf[key]; !ok {
-				switch r.Intn(4) {
+				switch r.Intn(8) {
 				case 0:
 					tagOf[key] = []string{}
 				case 1:
 					tagOf[key] = []string{"v1"}
+				case 2:
+					// look-alikes and spellings of a routing tag: white space around it (routecmd.build trims a tag
+					// before it looks for the prefix), the prefix inside the tag, upper case, the bare prefix, a
+					// proper prefix of the prefix
+					tagOf[key] = []string{r.Pick([]string{" " + in.Prefix + "/" + c.SID, "\t" + in.Prefix + "/" + c.SID + " ", "x" + in.Prefix + "/" + c.SID,
+						strings.ToUpper(in.Prefix) + "/" + c.SID, in.Prefix, in.Prefix[:len(in.Prefix)-1], "\u00a0" + in.Prefix + "/" + c.SID})}
 				default:
-					tagOf[key] = []string{"v1", "urlprefix-/" + c.SID}
+					tagOf[key] = []string{"v1", in.Prefix + "/" + c.SID}
 				}
 			}
 			c.Tags = tagOf[key]
 			if r.Chance(1, 25) {
-				c.Tags = []string{"urlprefix-/odd"} // tags differing between the checks of one instance
+				c.Tags = []string{in.Prefix + "/odd"} // tags differing between the checks of one instance
 			}
 		}
 		in.Checks = append(in.Checks, c)
